@@ -186,12 +186,17 @@ def check_loop(acc, E, coll, c, mask, nd, kw, use_c, max_it, thr):
     it ITERATES the step: the input of step i is the output of step i-1, the result is the output of the last step, and with
     keep_averages the kept list is exactly the sequence of step outputs."""
     np, bc = E.np, E.bc
-    for keep in ((False, True) if max_it >= 2 else (False,)):
+    variants = [(keep, 'C') for keep in ((False, True) if max_it >= 2 else (False,))]
+    if nd > 1 and len(c) > 1:
+        variants.append((False, 'F'))       # a column-major initial average (seed C12g): same values, same answer
+    for keep, layout in variants:
         s = [np.array(x, dtype=float) for x in coll]
         c0 = np.array(c, dtype=float)
+        if layout == 'F':
+            c0 = np.asfortranarray(c0)
         cbefore = c0.copy()
         calls = [0]
-        ins, outs = [], []
+        ins, outs, exps = [], [], []
         if use_c:
             target, name = E.dtw.dtw_cc, ('dba' if nd == 1 else 'dba_ndim')
             orig = getattr(bc.dtw_cc, name)
@@ -199,6 +204,9 @@ def check_loop(acc, E, coll, c, mask, nd, kw, use_c, max_it, thr):
             def wrap(*a, **k):
                 calls[0] += 1
                 ins.append(np.array(a[1], dtype=float).copy())
+                e = np.array(a[1], dtype=float, order='C')           # the same step on a row-major copy of its input
+                orig(a[0], e, *a[2:], **k)
+                exps.append(e)
                 r = orig(*a, **k)
                 outs.append(np.array(a[1], dtype=float).copy())      # the C step updates its second argument in place
                 return r
@@ -222,7 +230,7 @@ def check_loop(acc, E, coll, c, mask, nd, kw, use_c, max_it, thr):
                 bc.dba = orig
         acc.trans()
         acc.valid()
-        case = {'series': coll, 'c': c, 'mask': mask, 'ndim': nd, 'settings': kw, 'use_c': use_c, 'max_it': max_it, 'thr': thr, 'keep_averages': keep}
+        case = {'series': coll, 'c': c, 'mask': mask, 'ndim': nd, 'settings': kw, 'use_c': use_c, 'max_it': max_it, 'thr': thr, 'keep_averages': keep, 'layout': layout}
         why = None
         kept = None
         if not isinstance(res, core.Exc) and keep:
@@ -246,6 +254,9 @@ def check_loop(acc, E, coll, c, mask, nd, kw, use_c, max_it, thr):
             why = 'the first step did not start from the given average: %r' % (ins[0].tolist(),)
         elif any(not same(ins[i], outs[i - 1]) for i in range(1, calls[0])):
             why = 'step %d did not start from the output of the previous step' % ([i for i in range(1, calls[0]) if not same(ins[i], outs[i - 1])][0],)
+        elif any(not same(exps[i], outs[i]) for i in range(len(exps))):
+            why = 'step %d: output %r differs from the same step on a row-major copy of its input %r' % (
+                [i for i in range(len(exps)) if not same(exps[i], outs[i])][0], outs[0].tolist(), exps[0].tolist())
         elif calls[0] and not same(res, outs[-1]):
             why = 'the returned average %r is not the output of the last step %r' % (np.asarray(res).tolist(), outs[-1].tolist())
         elif kept is not None and (len(kept) != calls[0] or any(not same(kept[i], outs[i]) for i in range(calls[0]))):
